@@ -9,12 +9,15 @@ import re
 from ..generic import guarded_refill_needs_empty
 
 MANIFEST = {
-    'technique': 'symbolic linear forms of the reaction update statements; must-follow rule (rescale after every stoichiometry/reactant store); CFG must-pass rules for write-back and feasibility gate; sign provenance in the parsers',
-    'text': 'Decides for every input the form of the update (material += material[r]*X*S; parallel extents all computed from the feed before the '
-            'first update; series/system sequential), that the reactant coefficient is normalised to -1 after every store of stoichiometry or '
-            'reactant index, that the weight-basis conversion is an inverse pair followed by rescale, that __call__/force_reaction always write back '
-            'and restore the configuration, that both parsers negate left-hand coefficients, and that a normal return passed the feasibility gate. '
-            'Mass/atom conservation additionally assumes a balanced stoichiometry (an input assumption) and is not decided numerically.',
+    'technique': 'symbolic linear forms of the reaction update statements; must-follow rule (rescale after every stoichiometry/reactant store); CFG must-pass rules for '
+            'write-back and feasibility gate; sign provenance in the parsers; must-follow rule on re-bindings of view-wrapped storage (the mass view weight-basis '
+            'reactions write through)',
+    'text': 'Decides for every input the form of the update (material += material[r]*X*S; parallel extents all computed from the feed before the first update; '
+            'series/system sequential), that the reactant coefficient is normalised to -1 after every store of stoichiometry or reactant index, that the '
+            'weight-basis conversion is an inverse pair followed by rescale, that __call__/force_reaction always write back and restore the configuration, that '
+            'both parsers negate left-hand coefficients, that a normal return passed the feasibility gate, and that every re-binding of the molar storage (the '
+            'reset_chemicals pair of the configuration switch included) drops or replaces the cached mass view, without which a weight-basis reaction acts on '
+            'discarded data. Mass/atom conservation additionally assumes a balanced stoichiometry (an input assumption) and is not decided numerically.',
 }
 
 RX = 'thermosteam/reaction/_reaction.py'
@@ -43,6 +46,7 @@ def run(ctx):
         'D3 basis change is an inverse pair (*MW, /MW) followed by rescale and basis record; __call__/force_reaction always write back and restore config',
         'D4 both parsers negate left-hand-side coefficients and keep right-hand-side ones',
         'D5 with the feasibility flag on, every normal return of __call__ passed "no negatives" or "negatives zeroed"; the raise is reachable',
+        'D6 every re-binding of view-wrapped molar storage (reset_chemicals for the configuration switch, phase expansion ...) drops or replaces the cached mass view that weight-basis reactions write through',
     ]
     ctx.not_decided = ['mass/atom conservation for balanced stoichiometries on concrete numbers', 'cross-package index remapping at run time']
     d1 = ctx.rule('D1', 'update statements have the stated linear form', floor=7)
@@ -58,6 +62,10 @@ def run(ctx):
         guarded_refill_needs_empty(prog, prog.method(cname, 'reset_chemicals', rel='thermosteam/indexer.py'), d3)
     parser_rule(ctx, d4)
     feasibility_rule(ctx, d5)
+    # weight-basis reactions act on the stream through its mass view: the view must wrap the data the molar flows live in
+    d6 = ctx.rule('D6', 'mass views follow the molar storage (weight basis == molar basis on a stream)', floor=6)
+    from .C11 import view_coherence
+    view_coherence(ctx, d6)
 
 
 # ----------------------------------------------------------------------------
